@@ -236,6 +236,10 @@ def _span(ctx, rep, eng):
                 ms.sym == ("attr", src, "mstart") and me.sym == ("attr", src, "mend")
             if not ok:
                 latent_bad.setdefault(obj.site or "latent result", shape.describe())
+            elif not obj.fresh and obj.sym != src:
+                # the span was written onto an object that outlives the call (memoised or
+                # module-level): the next rewrite overwrites the span reported here
+                latent_bad.setdefault((obj.site or "latent result") + " [shared object]", shape.describe())
     for site, sh in sorted(latent_bad.items()):
         rep.violated("span", site, "ctparse/time/postprocess_latent.py",
                      "latent rewrite returns a value whose span is not the span of its input",
